@@ -220,4 +220,14 @@ PROPS = {
             {"name": "c06.forwarding", "pkg": ROUTING, "test": "TestVerifC06Forwarding", "shards_t": 16, "shards_q": 8, "crash_is_violation": True},
         ],
     },
+    "C15": {
+        "level": "exploration",
+        "technique": "exhaustive flag x outcome matrix on the node simulator; every emitted administrative record decoded independently and matched against the harness' event log (history oracle); feedback of reports for the cascade clause",
+        "level_text": "Every admissible cell of {request flags} x {time} x {fragment} x {outcome} x {report-to peer/self} is played on a fresh node (thorough: per algorithm). Each status report that leaves the node or reaches an agent must be well-formed, correctly addressed, reference the exact ID, and be justified by an earlier logged event and a request. Reports are fed back to show that no report is generated about a report.",
+        "level_note": "flag combinations the parser rejects (administrative record + request flags) cannot be received and are not part of the matrix; the quick tier plays every third cell (offset by the seed)",
+        "assumptions": ["the report-to node is a connected peer so that reports leave immediately"],
+        "units": [
+            {"name": "c15.matrix", "pkg": ROUTING, "test": "TestVerifC15Matrix", "shards_t": 16, "shards_q": 8, "crash_is_violation": True},
+        ],
+    },
 }
